@@ -184,6 +184,54 @@ func AnalyseWith(x interface{}, flags bool) Row {
 			}
 		}()
 	}
+	// the view must be derived from the receiver on EVERY call: (a) scrambling a previously returned slice must not change what the
+	// next call returns; (b) a shallow copy of the instruction made after a first call must expose ITS OWN fields
+	func() {
+		defer func() {
+			if e := recover(); e != nil {
+				row.Live = false
+			}
+		}()
+		inst3 := reflect.New(t)
+		var slots3 []slot
+		n3 := 0
+		fill(inst3.Elem(), "", &slots3, &n3)
+		if flags {
+			setFlags(inst3.Elem())
+		}
+		o := inst3.Interface().(operander)
+		first := o.Operands()
+		want := make([]uintptr, len(first))
+		for i, p := range first {
+			want[i] = reflect.ValueOf(p).Pointer()
+		}
+		for i := range first { // scramble the caller's slice
+			first[i] = first[0]
+		}
+		second := o.Operands()
+		if len(second) != len(want) {
+			row.Live = false
+		}
+		for i := range second {
+			if i < len(want) && reflect.ValueOf(second[i]).Pointer() != want[i] {
+				row.Live = false
+			}
+		}
+		// shallow copy: direct (non-slice) value fields of the copy have their own addresses
+		cp := reflect.New(t)
+		cp.Elem().Set(inst3.Elem())
+		origDirect := map[uintptr]bool{}
+		for _, s3 := range slots3 {
+			if !strings.Contains(s3.path, "[") {
+				origDirect[s3.addr] = true
+			}
+		}
+		for _, p := range cp.Interface().(operander).Operands() {
+			if origDirect[reflect.ValueOf(p).Pointer()] {
+				row.Live = false // the copy exposes a field of the ORIGINAL
+			}
+		}
+	}()
 	// one slot at a time, with the successor list already computed once (a cached list must not survive ANY single retargeting)
 	if _, ok := inst.Interface().(succer); ok && len(row.Succs) > 0 && row.Succs[0] != "panic" {
 		for k := range row.Succs {
